@@ -447,7 +447,9 @@ def ds1(prog, rr):
             if isinstance(n, ast.Call) and call_name(n) == "append" and "weight_list" in (recv_text(n) or ""):
                 g = [x.replace(" ", "") for x, pos in _guards(sel, n) if pos]
                 rr.inst("selection append guarded by %s" % g)
-                if not any(x in ("weight>0", "weight>=1", "0<weight") for x in g):
+                from sa.ir import find_local
+                wl = find_local(f.node, lambda v: ".weight.val()" in norm(v)) or ["weight"]
+                if not any(x in ("%s>0" % w, "%s>=1" % w, "0<%s" % w) for x in g for w in wl):
                     rr.finding(f, n, "DistConstraintBuilder.visit_constraint_dist", "DS2: entries are added to the selection list without the weight > 0 filter; "
                                "a zero-weight entry can be targeted")
     nt = prog.method("ConstraintDistScopeModel", "next_target_range")
@@ -464,14 +466,20 @@ def ds2(prog, rr):
     d = prog.function("vsc.methods", "distselect")
     t = norm(d.node)
     rr.inst("distselect")
-    apps = [n for n in walk_local(d.node) if isinstance(n, ast.Call) and call_name(n) == "append" and recv_text(n) == "weight_v"]
+    from sa.ir import find_local
+    apps = [n for n in walk_local(d.node) if isinstance(n, ast.Call) and call_name(n) == "append" and n.args and isinstance(n.args[0], ast.Tuple)]
+    rr.require(apps, "distselect: (weight, index) vector not found")
+    wv = recv_text(apps[0])
     for a in apps:
         if not (isinstance(a.args[0], ast.Tuple) and len(a.args[0].elts) == 2):
             rr.finding(d, a, "distselect", "DS2: weight vector entries are not (weight, index) pairs")
-    if "random.randint(1, total_w)" not in t:
+    draws = [n for n in walk_local(d.node) if isinstance(n, ast.Call) and norm(n.func) == "random.randint"]
+    tot = [x.target.id for x in walk_local(d.node) if isinstance(x, ast.AugAssign) and isinstance(x.op, ast.Add) and isinstance(x.target, ast.Name)]
+    if not draws or not (len(draws[0].args) == 2 and norm(draws[0].args[0]) == "1" and norm(draws[0].args[1]) in tot):
         rr.finding(d, d.node, "distselect", "DS2: the draw is not randint(1, total weight)", text="draw")
+    rv = find_local(d.node, lambda v: isinstance(v, ast.Call) and norm(v.func) == "random.randint")
     rets = [n for n in walk_local(d.node) if isinstance(n, ast.Return)]
-    lp = [n for n in walk_local(d.node) if isinstance(n, ast.For) and norm(n.iter) == "weight_v"]
+    lp = [n for n in walk_local(d.node) if isinstance(n, ast.For) and norm(n.iter) == wv]
     if not lp:
         rr.finding(d, d.node, "distselect", "DS2: cumulative walk over the weight vector not found", text="walk")
     else:
@@ -482,7 +490,7 @@ def ds2(prog, rr):
         for r in walk_local(lp[0]):
             if isinstance(r, ast.Return) and norm(r.value) != v + "[1]":
                 rr.finding(d, r, "distselect", "DS2: the walk returns '%s', not the selected entry's original index" % norm(r.value))
-            if isinstance(r, ast.If) and norm(r.test).replace(" ", "") not in ("rand_v<=0", "rand_v<1", "0>=rand_v"):
+            if isinstance(r, ast.If) and norm(r.test).replace(" ", "") not in [y % x for x in (rv or ["rand_v"]) for y in ("%s<=0", "%s<1", "0>=%s")]:
                 rr.finding(d, r, "distselect", "DS2: selection test is '%s'; with randint(1,total) the entry is selected when the remainder is <= 0 "
                            "(otherwise a zero-weight entry can be picked)" % norm(r.test))
     rs = prog.function("vsc.methods", "randselect")
@@ -492,7 +500,7 @@ def ds2(prog, rr):
         rr.finding(rs, rs.node, "randselect", "DS2: randselect no longer selects through distselect", text="no distselect")
     # index spaces agree: weight_v gets one entry per element of sel_l, unconditionally
     for n in walk_local(rs.node):
-        if isinstance(n, ast.Call) and call_name(n) == "append" and recv_text(n) == "weight_v":
+        if isinstance(n, ast.Call) and call_name(n) == "append" and calls and recv_text(n) == norm(calls[0].args[0]):
             g = [x for x, pos in _guards(rs.node, n)]
             rr.inst("randselect weight append guards: %s" % g)
             if g:
@@ -500,7 +508,8 @@ def ds2(prog, rr):
                            "callback can be invoked and a later entry starved" % g)
     inv = [n for n in walk_local(rs.node) if isinstance(n, ast.Call) and isinstance(n.func, ast.Subscript)]
     for i in inv:
-        if norm(i.func) != "%s[idx][1]" % rs.params[0]:
+        idxs = find_local(rs.node, lambda v: isinstance(v, ast.Call) and call_name(v) == "distselect") or ["idx"]
+        if norm(i.func) not in ["%s[%s][1]" % (rs.params[0], ix) for ix in idxs]:
             rr.finding(rs, i, "randselect", "DS2: the invoked callback is '%s'; expected the selected element's callable" % norm(i.func))
 
 
@@ -519,16 +528,19 @@ def cv12(prog, rr):
     for a in arms:
         shifts = {norm(x.target): x.value.value for x in walk_local(a) if isinstance(x, ast.AugAssign) and isinstance(x.op, ast.LShift) and isinstance(x.value, ast.Constant)}
         ors = {norm(x.target): x.value for x in walk_local(a) if isinstance(x, ast.AugAssign) and isinstance(x.op, ast.BitOr)}
-        k = shifts.get("value")
+        rt = [r for r in walk_local(f.node) if isinstance(r, ast.Return) and isinstance(r.value, ast.Tuple) and len(r.value.elts) == 2]
+        rr.require(rt, "str2bin does not return a pair")
+        VAL, MSK = norm(rt[0].value.elts[0]), norm(rt[0].value.elts[1])
+        k = shifts.get(VAL)
         rr.inst("str2bin arm shift=%s" % k)
-        if k is None or shifts.get("mask") != k:
+        if k is None or shifts.get(MSK) != k:
             rr.finding(f, a, "WildcardBinFactory.str2bin", "CV12: value and mask are shifted by different amounts (%s)" % shifts, text="arm shifts %s" % sorted(shifts.items()))
             continue
-        mk = ors.get("mask")
+        mk = ors.get(MSK)
         if not (isinstance(mk, ast.Constant) and mk.value == (1 << k) - 1):
             rr.finding(f, a, "WildcardBinFactory.str2bin", "CV12: a %d-bit digit sets mask bits %s; expected %s" % (k, norm(mk) if mk is not None else None, hex((1 << k) - 1)),
                        text="arm %d mask" % k)
-        vv = ors.get("value")
+        vv = ors.get(VAL)
         radix = None
         if isinstance(vv, ast.Call) and len(vv.args) == 2 and isinstance(vv.args[1], ast.Constant):
             radix = vv.args[1].value
@@ -548,7 +560,7 @@ def cv12(prog, rr):
                     rr.finding(f, x, "WildcardBinFactory.str2bin", "CV12: %s is applied to wildcard digits as well" % norm(x))
     ret = [n for n in walk_local(f.node) if isinstance(n, ast.Return)]
     for r in ret:
-        if norm(r.value).replace(" ", "") != "(value,mask)":
+        if not (isinstance(r.value, ast.Tuple) and len(r.value.elts) == 2):
             rr.finding(f, r, "WildcardBinFactory.str2bin", "CV12: str2bin returns %s; every consumer unpacks (value, mask)" % norm(r.value))
     # consumers
     sm = prog.method("CoverpointBinSingleWildcardModel", "sample")
@@ -558,9 +570,11 @@ def cv12(prog, rr):
     for lp in walk_local(sm.node):
         if isinstance(lp, ast.For):
             lpv = norm(lp.target)
+    from sa.ir import find_local
+    vals = find_local(sm.node, lambda v: "get_val()" in norm(v)) or ["val"]
     for t in tests:
         tt = norm(t).replace(" ", "")
-        if tt not in ("val&%s[1]==%s[0]" % (lpv, lpv), "(val&%s[1])==%s[0]" % (lpv, lpv)):
+        if tt not in [y % (v, lpv, lpv) for v in vals for y in ("%s&%s[1]==%s[0]", "(%s&%s[1])==%s[0]")]:
             rr.finding(sm, t, "CoverpointBinSingleWildcardModel.sample", "CV12: the match test is '%s'; with specs stored as (value, mask) it must be "
                        "(val & spec[1]) == spec[0]" % norm(t))
     if not tests:
@@ -572,7 +586,14 @@ def cv12(prog, rr):
             n_cons += 1
             a = [norm(x) for x in n.args]
             rr.inst("valmask2binlist(%s)" % ", ".join(a))
-            ok = len(a) == 2 and (a[0].endswith("[0]") and a[1].endswith("[1]") or (a[0], a[1]) == ("value", "mask"))
+            ok = len(a) == 2 and (a[0].endswith("[0]") and a[1].endswith("[1]"))
+            if not ok and len(a) == 2:
+                # a pair unpacked from str2bin:  X, Y = WildcardBinFactory.str2bin(..)  ->  valmask2binlist(X, Y)
+                for u in ast.walk(cov.tree):
+                    if isinstance(u, ast.Assign) and isinstance(u.targets[0], ast.Tuple) and len(u.targets[0].elts) == 2 \
+                            and isinstance(u.value, ast.Call) and call_name(u.value) == "str2bin" \
+                            and [norm(e) for e in u.targets[0].elts] == a:
+                        ok = True
             if not ok:
                 rr.finding(cov, n, "coverage.valmask2binlist call", "CV12: value/mask passed as (%s)" % ", ".join(a))
     rr.require(n_cons >= 1, "no consumer of valmask2binlist found in coverage.py")
